@@ -166,7 +166,7 @@ func TestPredictor(t *testing.T) {
 		f.Close()
 	}
 	// closed loop over production patterns: wait = returned interval, progress = certificates produced since
-	runs := envInt("VERIF_PRUNS", 40)
+	runs := envInt("VERIF_PRUNS", 28)
 	settings := [][3]int64{{1000, 30000, 120000}, {1000, 1000, 120000}, {1000, 120000, 120000}, {500, 10000, 60000}, {2000, 5000, 20000}, {100, 3000, 12000}, {1000, 2000, 4000}}
 	for i := 0; i < runs; i++ {
 		s := settings[rng.Intn(len(settings))]
@@ -573,10 +573,12 @@ type runSpec struct {
 	rounds       int
 }
 
-func (w *world) lockedAdd(d int64) {
+// lockedAdd advances the mock clock and returns the time reached (read before any request hook can move it on)
+func (w *world) lockedAdd(d int64) int64 {
 	w.clockMu.Lock()
+	defer w.clockMu.Unlock()
 	w.mock.Add(time.Duration(d))
-	w.clockMu.Unlock()
+	return w.mock.Now().UnixNano()
 }
 
 func runLoop(t *testing.T, rec *recorder, fx *fixture, rng *rand.Rand, rs runSpec) {
@@ -626,18 +628,18 @@ func runLoop(t *testing.T, rec *recorder, fx *fixture, rng *rand.Rand, rs runSpe
 		w.beginRound(during)
 		arrivals0 := w.arrivals.Load()
 		early := false
+		tPoll := w.mock.Now().UnixNano()
 		if wait > 1 {
 			// the timer must not fire one tick before the delay reported by the gauge
-			w.lockedAdd(wait - 1)
+			tPoll = w.lockedAdd(wait - 1)
 			time.Sleep(300 * time.Microsecond)
 			if w.arrivals.Load() != arrivals0 || len(endCh) > 0 {
 				early = true
 			}
 		}
 		if !early {
-			w.lockedAdd(min(wait, 1))
+			tPoll = w.lockedAdd(min(wait, 1))
 		}
-		tPoll := w.mock.Now().UnixNano()
 		var end roundEnd
 		select {
 		case end = <-endCh:
